@@ -364,12 +364,19 @@ def call_real(c, workdir):
 
 
 def signature(c, tr):
+    """The defect class of a rejected case, from its input only.  The classes are made exclusive (first match) so that
+    one listed finding / one fix accounts for a class:
+      target_only_fasta_shared_decoy_row  FASTA without decoy entries and a decoy row whose peptide is shared
+      all_shared                          no row maps to a unique group
+      decoy_group_named_in_other_order    a pair with unique peptides on both sides whose decoy group name does not
+                                          start with the prefixed first member of the target group name"""
     cls = tr["cls"]
-    sig = {"api": "picked_protein" if c["mode"] == "direct" else "assign_confidence(proteins=)", "raised": tr["raised"]}
-    sig.update(cls)
-    explained = cls["all_shared"] or cls["decoy_group_named_in_other_order"] or \
-        (not cls["fasta_decoys"] and cls["shared_decoy_row"])
-    if not explained:        # unclassified: keep the whole case in the signature
+    k1 = (not cls["fasta_decoys"]) and cls["shared_decoy_row"]
+    k2 = (not k1) and cls["all_shared"]
+    k3 = (not k1) and (not k2) and cls["decoy_group_named_in_other_order"]
+    sig = {"api": "picked_protein" if c["mode"] == "direct" else "assign_confidence(proteins=)", "raised": tr["raised"],
+           "target_only_fasta_shared_decoy_row": k1, "all_shared": k2, "decoy_group_named_in_other_order": k3}
+    if not (k1 or k2 or k3):        # unclassified: keep the whole case in the signature
         sig.update({k: c[k] for k in ("n", "pid", "own", "ptgt", "rank", "kinds", "fasta", "lower_table", "seed")})
     return sig
 
@@ -569,8 +576,8 @@ def run(ctx):
     for i in sorted(rejected, key=lambda i: (cases[i]["n"], len(cases[i]["kinds"]), i)):     # smallest first
         tr, c = traces[i], cases[i]
         sig = signature(c, tr)
-        key = json.dumps({k: sig[k] for k in sorted(sig) if k in ("api", "raised", "all_shared", "fasta_decoys",
-                          "decoy_group_named_in_other_order", "shared_decoy_row")})
+        key = ", ".join(["api=" + sig["api"]] + [k for k in ("target_only_fasta_shared_decoy_row", "all_shared",
+                        "decoy_group_named_in_other_order") if sig[k]] + ["raised=" + sig["raised"]])
         classes[key] = classes.get(key, 0) + 1
         ctx.reject({"case": c, "trace": tr}, verdicts[tr["tid"]]["failed"], sig)
     ctx.cov["rejected_by_class"] = classes
